@@ -586,6 +586,8 @@ def case_affine(draw, max_extent=6, coeffs=(1, 1, 2, 2, 3, 4), allow_partition=T
         loop = list(vs)
         for trank, terms in affine:
             repl = [v for _, v in terms if v not in out_vars]
+            if tmpl == "twotap":
+                repl = []    # replacing one of two taps of the same tensor is legal only for some positions: not generated
             if repl and draw(st.booleans()):
                 loop[loop.index(draw(st.sampled_from(repl)))] = trank
         # expand partitioned ranks into levels; the follower shares the leader's upper levels, only its bottom level is
